@@ -139,7 +139,7 @@ execd = _ns['execd']
 def raises(a, b=2):
   LOG.append(('raises', a, b))
   if a > b:
-    raise KeyError(a)
+    raise KeyError('missing')      # (constant key: formatting a symbolic key cannot be exhausted)
   return b
 
 
